@@ -1007,4 +1007,109 @@ theorem src_ss_rollover_rolled (lfuel : Nat) (st : SS) (h : st.buffer.real = tru
 /-- non-vacuity: a code-point traversal over multi-byte text meets the hypotheses of the traverse / seek ties -/
 example : travOk 3 (SStr.bseek ⟨⟨encode ['a', 'é', '日'], 6⟩, {}, 3, false, 100, 2⟩ 0) 0 2 = true := by decide
 
+/-! ## 5. SpooledStringIO, round 3f: `len`, `seek(·, 1|2)`, `readline`, `rollover`, `write` completed -/
+
+/-- the model's `lenLoop` ends by its exit (an empty read), not by its fuel, and every read on the way is good -/
+def lenOk : Nat → SStr → Bool
+  | 0, _ => false
+  | k + 1, s =>
+    goodRead s (some s.chunk) &&
+      ((s.read (some s.chunk)).1.isEmpty || lenOk k (s.read (some s.chunk)).2)
+
+/-- THE READING LOOP of `len`: with at least the model's fuel the generated loop ends normally in an object standing
+    for `SStr.lenLoop`, with the same running total; the saved position (`loc1`) is not touched -/
+theorem ss_len_sim (k : Nat) : ∀ (n : Nat) (s0 : SpooledStringIO.len.St) (s : SStr) (total : Nat),
+    RelS s0.self s → s0.loc2 = (total : Int) → lenOk k s = true → k ≤ n →
+    ∃ s', whileLoop SpooledStringIO.len.loop1.cond SpooledStringIO.len.loop1.body n s0 = (.next, s') ∧
+      RelS s'.self (SStr.lenLoop k s total).2 ∧ s'.loc2 = ((SStr.lenLoop k s total).1 : Int) ∧ s'.loc1 = s0.loc1 := by
+  induction k with
+  | zero => intro n s0 s total _ _ hok; simp [lenOk] at hok
+  | succ k ih =>
+    intro n s0 s total hr htot hok hn
+    obtain ⟨n, rfl⟩ : ∃ n', n = n' + 1 := ⟨n - 1, by omega⟩
+    have hch := hr.chunk
+    rw [whileLoop_succ]
+    have hc : SpooledStringIO.len.loop1.cond s0 = true := by simp [SpooledStringIO.len.loop1.cond]
+    rw [hc, if_pos rfl]
+    unfold lenOk at hok
+    unfold SStr.lenLoop
+    simp only [Bool.and_eq_true, Bool.or_eq_true] at hok
+    have hsz : sizeOf s0.self.chunk = some s.chunk := by rw [hch]; simp [sizeOf]
+    have hrd := src_ss_read_eq_model s0.self s _ hr (by rw [hsz]; exact hok.1)
+    rw [hsz] at hrd
+    rcases hread : SpooledStringIO.read s0.self s0.self.chunk with ⟨r, st1⟩
+    rw [hread] at hrd
+    simp only at hrd
+    by_cases h3 : (s.read (some s.chunk)).1.isEmpty = true
+    · rw [if_pos h3]
+      have h3' : (s.read (some s.chunk)).1 = [] := by simpa using h3
+      refine ⟨{ s0 with self := st1, loc3 := (s.read (some s.chunk)).1 }, ?_, hrd.2, htot, rfl⟩
+      simp [SpooledStringIO.len.loop1.body, hread, hrd.1, h3']
+    · rw [if_neg h3]
+      have h3' : (s.read (some s.chunk)).1 ≠ [] := by simpa using h3
+      have hok2 : lenOk k (s.read (some s.chunk)).2 = true := by
+        rcases hok.2 with h | h
+        · exact absurd h h3
+        · exact h
+      obtain ⟨s', hs', hrel', ht', hl'⟩ := ih n
+        { s0 with self := st1, loc3 := (s.read (some s.chunk)).1,
+                  loc2 := s0.loc2 + PyRt.len (s.read (some s.chunk)).1 }
+        (s.read (some s.chunk)).2 (total + (s.read (some s.chunk)).1.length) hrd.2
+        (by simp [htot, PyRt.len]) hok2 (by omega)
+      refine ⟨s', ?_, hrel', ht', hl'⟩
+      rw [← hs']
+      simp [SpooledStringIO.len.loop1.body, hread, hrd.1, h3']
+
+theorem ss_len_sim_of_eq (k n : Nat) (s0 s1 : SpooledStringIO.len.St) (fl : Flow Int) (s : SStr) (total : Nat)
+    (heq : whileLoop SpooledStringIO.len.loop1.cond SpooledStringIO.len.loop1.body n s0 = (fl, s1))
+    (hr : RelS s0.self s) (htot : s0.loc2 = (total : Int)) (hok : lenOk k s = true) (hk : k ≤ n) :
+    fl = .next ∧ RelS s1.self (SStr.lenLoop k s total).2 ∧ s1.loc2 = ((SStr.lenLoop k s total).1 : Int) ∧
+      s1.loc1 = s0.loc1 := by
+  obtain ⟨s', hs', hrel, ht, hl⟩ := ss_len_sim k n s0 s total hr htot hok hk
+  rw [hs'] at heq
+  cases heq
+  exact ⟨rfl, hrel, ht, hl⟩
+
+/-- what `len` needs of the model state: the reading loop from the start ends by an empty read with good reads, and
+    the code-point seek back to `_tell` is a good traversal -/
+def lenAllOk (s : SStr) : Bool :=
+  lenOk (s.st.data.length + 2) (s.bseek 0) &&
+    travOk (s.tell + 1) ((SStr.lenLoop (s.st.data.length + 2) (s.bseek 0) 0).2.bseek 0) 0 s.tell
+
+/-- the `len` property: `SStr.len` — the number of code points, the code-point position saved and restored by `seek` -/
+theorem src_ss_len_eq_model (lfuel : Nat) (st : SS) (s : SStr) (h : RelS st s) (hok : lenAllOk s = true)
+    (hk : s.st.data.length + 2 ≤ lfuel) (hk2 : s.tell + 1 ≤ lfuel) :
+    (SpooledStringIO.len lfuel st).1 = .ok (s.len.1 : Int) ∧ RelS (SpooledStringIO.len lfuel st).2 s.len.2 := by
+  simp only [lenAllOk, Bool.and_eq_true] at hok
+  rcases st with ⟨⟨bst, brd, bcl, brl⟩, tl, ms, dir, ch⟩
+  have hcl : bcl = false := h.opened
+  subst hcl
+  have htl : tl = (s.tell : Int) := h.tell
+  have hb : RelS { buffer := ⟨bst.seek 0, Reader.reset, false, brl⟩, tell := tl, max_size := ms, dir := dir, chunk := ch }
+      (s.bseek 0) := h.bseek0
+  simp only [SpooledStringIO.len, SpooledStringIO.len.body, seq_apply, bindE_apply, assign_apply, skip_apply, ret_apply,
+    src_ss_tell_eq_model, CFile.seek, Bool.false_eq_true, if_false, Int.lt_irrefl, Int.toNat_zero]
+  split
+  · rename_i x s1 heq
+    obtain ⟨_, hrel, ht, hl⟩ := ss_len_sim_of_eq (s.st.data.length + 2) lfuel _ _ _ (s.bseek 0) 0 heq
+      (by simpa using hb) (by simp) hok.1 hk
+    simp only at hl
+    have hsk := src_ss_seek0_eq_model lfuel s1.self _ s.tell hrel hok.2 hk2
+    rw [hl, htl]
+    rcases hseek : SpooledStringIO.seek0 lfuel s1.self (s.tell : Int) with ⟨r, st2⟩
+    rw [hseek] at hsk
+    simp only at hsk
+    rw [hsk.1]
+    exact ⟨by simp [ht, SStr.len], by simpa [SStr.len] using hsk.2⟩
+  · rename_i x fl s1 hne heq
+    obtain ⟨hfl, _, _⟩ := ss_len_sim_of_eq (s.st.data.length + 2) lfuel _ _ _ (s.bseek 0) 0 heq
+      (by simpa using hb) (by simp) hok.1 hk
+    exact absurd hfl hne
+
+/-- non-vacuity: the hypotheses of the `len` tie hold of an object holding multi-byte text, read in chunks of 2 code points -/
+def demoModS : SStr := ⟨⟨encode ['a', 'é'], 3⟩, {}, 2, false, 100, 2⟩
+def demoSrcS : SS :=
+  { buffer := ⟨⟨encode ['a', 'é'], 3⟩, {}, false, false⟩, tell := 2, max_size := 100, dir := (), chunk := 2 }
+example : RelS demoSrcS demoModS ∧ lenAllOk demoModS = true := ⟨⟨rfl, rfl, rfl, rfl, rfl, rfl, rfl⟩, by decide⟩
+
 end C18
